@@ -67,6 +67,34 @@ pub fn on_end(o: &mut Observer, end_us: u64) {
         }
     }
     if profile == "C07" {
+        // "An unanswered request is retried with other peers": every sync request the lagger
+        // addressed to the deaf peer for a block it still lacks one retry period later must have
+        // been repeated, for the same block, to somebody else.
+        if let (Some(l), Some((p, t0, t1))) = (b.lagger, b.deaf) {
+            let retry = o.ext.params.get(l).map_or(0, |x| x.sync_retry_delay * 1_000);
+            let period = retry + 5_000_000 + 2_000_000;
+            let reqs = o.ext.sync_requests[l].clone();
+            let mut checked = 0;
+            let mut missing: Option<(u64, crypto::Digest)> = None;
+            for (_, t, d, dst) in &reqs {
+                if *dst != p || *t < t0 || *t >= t1 || t + period > end_us.min(t1) {
+                    continue;
+                }
+                let stored_at = o.nodes[l].store_t.get(&d.0.to_vec()).cloned();
+                if stored_at.map_or(false, |s| s <= t + period) {
+                    continue;
+                }
+                checked += 1;
+                let retried = reqs.iter().any(|(_, t2, d2, dst2)| d2 == d && *dst2 != p && *dst2 != l && *t2 > *t && *t2 <= t + period);
+                if !retried && missing.is_none() {
+                    missing = Some((*t, d.clone()));
+                }
+            }
+            o.probe_n("C07.unanswered-requests-checked", checked);
+            if let Some((t, d)) = missing {
+                o.violate("C07", "unanswered-request-not-retried", Some(l), format!("node {} asked the unresponsive node {} for block {} at {} us, still lacked it {} us later, and never asked anybody else for it in between", l, p, crate::ident::short(&d), t, period));
+            }
+        }
         if let Some(l) = b.lagger {
             let others: Vec<usize> = (0..o.n).filter(|j| *j != l && o.is_honest_node(*j) && o.ext.crashed[*j].is_none()).collect();
             let reference = b.catchup_deadline_us.saturating_sub(b.liveness_window_us);
@@ -79,9 +107,12 @@ pub fn on_end(o: &mut Observer, end_us: u64) {
                 o.probe("C07.lagger-was-behind");
             }
             if mine < target {
+                // A peer that never answers makes every backward step through one of its blocks
+                // cost a full retry period (5 s granularity), slower than blocks are produced.
+                let rule = if matches!(b.deaf, Some((_, _, t1)) if t1 == u64::MAX) { "lagger-did-not-catch-up.peer-deaf-for-ever" } else { "lagger-did-not-catch-up" };
                 o.violate(
                     "C07",
-                    "lagger-did-not-catch-up",
+                    rule,
                     Some(l),
                     format!("node {} (isolated until {} us, behind by {} rounds then) has committed up to round {} at {} us while the others had reached round {} at {} us", l, b.heal_us, at_heal.saturating_sub(mine_at_heal), mine, end_us, target, reference),
                 );
